@@ -141,7 +141,9 @@ func (s *Server) Objects() []metav1.Object {
 			out = append(out, p)
 		}
 	})
-	sort.Slice(out, func(i, j int) bool { return key(out[i].GetNamespace(), out[i].GetName()) < key(out[j].GetNamespace(), out[j].GetName()) })
+	sort.Slice(out, func(i, j int) bool {
+		return key(out[i].GetNamespace(), out[i].GetName()) < key(out[j].GetNamespace(), out[j].GetName())
+	})
 	return out
 }
 
@@ -155,7 +157,9 @@ func (s *Server) Snapshot() ([]metav1.Object, int) {
 		}
 		rv = s.rv
 	})
-	sort.Slice(out, func(i, j int) bool { return key(out[i].GetNamespace(), out[i].GetName()) < key(out[j].GetNamespace(), out[j].GetName()) })
+	sort.Slice(out, func(i, j int) bool {
+		return key(out[i].GetNamespace(), out[i].GetName()) < key(out[j].GetNamespace(), out[j].GetName())
+	})
 	return out, rv
 }
 
@@ -251,14 +255,14 @@ func (s *Server) List(ctx context.Context, opts metav1.ListOptions) (runtime.Obj
 // ---- Watch -----------------------------------------------------------------------------------
 
 type stream struct {
-	s      *Server
-	ch     chan watch.Event
-	wake   chan struct{}
-	stopch chan struct{}
-	cursor int // last rv delivered or skipped
-	fault  WatchFault
-	frames int
-	ctx    context.Context
+	s       *Server
+	ch      chan watch.Event
+	wake    chan struct{}
+	stopch  chan struct{}
+	cursor  int // last rv delivered or skipped
+	fault   WatchFault
+	frames  int
+	ctx     context.Context
 	stopped bool
 }
 
